@@ -62,7 +62,7 @@ def run():
     at = threading.Thread(target=_audit)
     at.start()
     # recorded executions, in chunks: the harness produces chunk k+1 while TLC validates chunk k
-    nchunk = 24 if thorough else 1
+    nchunk = 12 if thorough else 1
     stats = {"cases": 0, "fam": {}, "mode": {}, "texts": set(), "ops": set(), "maxtok": 0, "err_both": 0, "cmp": 0}
     samples = []
     paths = [os.path.join(vlib.scratch(), "pratt-%d.ndjson" % k) for k in range(nchunk)]
@@ -103,9 +103,19 @@ def run():
                 if tk[0] == "op":
                     stats["ops"].add(tk[1])
         if not samples:
-            for c in list(cases.values())[:3]:
-                samples.append({"text": c["text"], "tree": c["tree"], "prefix": c["ptext"], "value": c["val"],
-                                "effects": c["eff"], "verdict": v[c["id"]][0]})
+            pool = [c for c in cases.values() if len(c["toks"]) >= 7 and c["val"][0] == "val"]
+            want = ["x", "s", "f"]
+            for fam in want:
+                for c in pool:
+                    if c["fam"] == fam:
+                        samples.append({"id": c["id"], "text": c["text"], "tokens": c["toks"], "tree": c["tree"],
+                                        "prefix": c["ptext"], "value": c["val"], "effects": c["eff"],
+                                        "state_change": c["st"], "verdict": v[c["id"]][0]})
+                        break
+            if not samples:
+                c = list(cases.values())[0]
+                samples.append({"id": c["id"], "text": c["text"], "tree": c["tree"], "prefix": c["ptext"],
+                                "verdict": v[c["id"]][0]})
         try:
             os.unlink(paths[k])
         except OSError:
@@ -131,6 +141,7 @@ def run():
         "cases_per_family": stats["fam"], "cases_per_spacing": stats["mode"],
         "operators_covered": sorted(stats["ops"]), "longest_token_list": stats["maxtok"],
         "cases_where_both_forms_raise_an_error": stats["err_both"],
+        "cases_evaluated_to_a_value": stats["cases"] - stats["err_both"],
         "samples": samples,
         "exhaustive": True,
         "rule": "x: every operator sequence with <= %d operators in total (all 19 binary operators, not, [..], .x, ++/--), "
